@@ -357,7 +357,15 @@ func NonMatchingFile(r *world.PRNG, style, header string) []byte {
 // UnparseableFile returns Go-looking text that does not parse.
 func UnparseableFile(r *world.PRNG) []byte {
 	base := string(NonMatchingFile(r, "canonical", ""))
-	switch r.Intn(4) {
+	switch r.Intn(8) {
+	case 4:
+		return []byte{} // an empty file
+	case 5:
+		return []byte("// only a comment, no package clause\n")
+	case 6:
+		return []byte("package 123\n\nfunc f() {}\n")
+	case 7:
+		return []byte("package\n")
 	case 0:
 		return []byte(base + "\nfunc broken( {\n")
 	case 1:
